@@ -88,6 +88,19 @@ CLAIMED["C10"] = dict(
     note=TRUST + "; digests are the first 56 bits of SHA-256 over float64 bytes; variants run the truth through identical float operations",
     engine="resonaate-system")
 
+CLAIMED["C19"] = dict(
+    text=("TLC checks Importer.tla exhaustively over EVERY importer row set (scenario agents, unrelated agents, two epochs), every "
+          "realtime/imported mix and every observation set: ImportFaithful, NoStaleState (a gap must raise), ObsReachFilter, "
+          "ImporterReadOnly; the as-coded count-based completeness check is refuted. A real realtime run produces a source database; "
+          "importer databases are derived from it with plain sqlite3 (exact, supersets with unrelated agents, a gap at every (agent "
+          "kind, epoch) with and without unrelated extras, thinned observations) and the real scenario is run against each; per step "
+          "the trace records which database record each imported agent's state is bit-equal to, whether MissingEphemerisError was "
+          "raised, which imported observations reached each estimate update, and the file hash before/after; TLC validates the "
+          "traces against TraceImporter.tla."),
+    ref="5 C19", technique="TLA+ spec Importer.tla + TLC exhaustive over row sets; trace validation of real runs against derived importer databases",
+    note=TRUST + "; sqlite3 for deriving/reading importer databases; state-to-row matching by exact float equality",
+    engine="importer")
+
 NOT_APPLICABLE = {
     "C13": ("an explicit TLA+ specification cannot evaluate a degree-20 spherical-harmonic gradient or analytic ephemerides; "
             "the property IS equality with an independent numerical reference, which would be differential testing, a "
